@@ -179,6 +179,21 @@ def s12_config_setters(ctx):
         p = path_to(b, [0], lambda x: b.term(x)["k"] == "return", blocked_edges=lambda e: e.kind == "unwind", blocked_blocks=wb)
         # blocks containing the write are blocked entirely: a return reachable around them means a path without the store
         r.add(f, "%s ↦ self.%s" % (param, suffix), src_ok and not stray and p is None, short_span(b.span), "" if (src_ok and not stray and p is None) else "writes %s%s" % ([(w[1], origin_str(w[2])[:40]) for w in writes], "; a path returns without storing" if p is not None else ""))
+    # layering of the server's configuration sources: the environment overrides the file (config-rs: later sources win)
+    cg = prog.find("conf::Configuration::get")
+    if len(cg) == 1:
+        b = cg[0]
+        adds = [(bb, t) for _, bb, t in calls_in([b], "config::ConfigBuilder::add_source", "config::builder::ConfigBuilder::add_source")]
+        order = []
+        for bb, t in adds:
+            so = origin_str(arg_origin(b, t, 1))
+            depth = len(origin_mentions(arg_origin(b, t, 0), lambda x: x[0] == "call" and x[1] and x[1].endswith("add_source")))
+            kind = "env" if ("Environment" in so or "with_prefix" in so) else ("file" if ("File" in so or "with_name" in so) else "?")
+            order.append((depth, kind))
+        order.sort()
+        kinds = [k for d, k in order]
+        good = kinds == ["file", "env"]
+        r.add(fam_name(b), "configuration file first, environment (BITCASK__…) last so that it overrides", good, short_span(b.span), "sources in order: %s" % kinds)
     ob = prog.find("storage::bitcask::config::Config::open")
     if len(ob) == 1:
         b = ob[0]
